@@ -19,7 +19,7 @@ from concurrent.futures import ThreadPoolExecutor
 from harness import colang2, progs2, tlc, v2corpus
 
 SPEC_DIR = "/verif/specs/colang2"
-FRAGMENT_FEATURES = {"when", "if", "while", "groups", "return", "abort", "vars", "start"}
+FRAGMENT_FEATURES = {"when", "if", "while", "groups", "return", "abort", "vars", "start", "actions", "refs"}
 INVARIANTS = ("QueueEmpty", "Parked", "IndexIsScan", "DoneNoHeads")
 
 
@@ -62,6 +62,7 @@ def explore(ctx, nprog, maxhist, maxpick, seed_offset=0):
         results = list(ex.map(run_tlc, prepared))
     colang2.install_scripted_random()
     sm = colang2.sm
+    created = _log_action_creation()
     out = {"programs": len(prepared), "outside_fragment": outside, "states": 0, "transitions": 0, "compared": 0, "drift": 0,
            "spec_violations": [], "traces": [], "drift_samples": [], "errors": []}
     for (i, src, prog, alphabet), r in zip(prepared, results):
@@ -72,17 +73,24 @@ def explore(ctx, nprog, maxhist, maxpick, seed_offset=0):
         out["transitions"] += r.generated
         for inv in r.violated:
             out["spec_violations"].append({"invariant": inv, "program": src, "counterexample": tlc.counterexample(r.out)[:3000]})
+        del created[:]
         base = colang2.start_main(colang2.compile_program(src))
+        base_created = list(created)
         first = v2corpus.step_record({"type": "StartFlow", "flow_id": "main"}, base)
         for p in r.printed:
             if "hist" not in p:
                 continue
             s = copy.deepcopy(base)
+            created[:] = base_created
             steps = [first]
             err = None
-            for (ai, pick) in p["hist"]:
+            for (ai, pick, act) in p["hist"]:
                 colang2._scripted.picks = [pick] * 16
-                ev = dict(alphabet[ai - 1])
+                if ai > 0:
+                    ev = dict(alphabet[ai - 1])
+                else:
+                    uid = created[act - 1][0]
+                    ev = {"type": created[act - 1][1] + ("Started" if ai == -1 else "Finished"), "action_uid": uid}
                 try:
                     s = sm.run_to_completion(s, ev)
                 except Exception as ex:
@@ -96,17 +104,39 @@ def explore(ctx, nprog, maxhist, maxpick, seed_offset=0):
                 continue
             real = [(f.flow_id, f.status.name, [(h.position, h.status.name) for h in f.heads.values()]) for f in s.flow_states.values()]
             spec = [(f["fid"], f["status"], [(h["pos"], h["status"]) for h in f["heads"]]) for f in p["proj"]["flows"]]
-            rout = [e["type"] for e in s.outgoing_events]
-            sout = [e["name"] for e in p["proj"]["out"]]
+            aidx = {u: i + 1 for i, (u, _) in enumerate(created)}
+            rout = [(e["type"], aidx.get(e.get("action_uid"), 0)) for e in s.outgoing_events]
+            sout = [(e["name"], e["act"]) for e in p["proj"]["out"]]
+            ract = sorted((aidx[u], a.name, a.status.name, a.flow_scope_count) for u, a in s.actions.items() if u in aidx)
+            sact = sorted((i + 1, a["name"], a["status"], a["scope"]) for i, a in enumerate(p["proj"]["actions"]) if a["status"] != "DELETED")
             # the dispatch index: (instance number, event name) multiset
             inst = {uid: k + 1 for k, uid in enumerate(s.flow_states.keys())}
             ridx = sorted((inst[fu], name) for name, lst in s.event_matching_heads.items() for (fu, hu) in lst)
             sidx = sorted((x[0], x[2]) for x in p["proj"]["index"])
-            if real != spec or rout != sout or ridx != sidx:
+            if real != spec or rout != sout or ridx != sidx or ract != sact:
                 out["drift"] += 1
                 if len(out["drift_samples"]) < 5:
-                    out["drift_samples"].append({"program": src, "hist": [[alphabet[a - 1], pk] for a, pk in p["hist"]],
-                                                 "real": [real, rout, ridx], "spec": [spec, sout, sidx]})
+                    out["drift_samples"].append({"program": src, "hist": [[alphabet[a - 1] if a > 0 else ("act%d %s" % (c, "Started" if a == -1 else "Finished")), pk] for a, pk, c in p["hist"]],
+                                                 "real": [real, rout, ridx, ract], "spec": [spec, sout, sidx, sact]})
             if len(steps) > 1:
                 out["traces"].append({"steps": steps, "origin": "colangsm:%d" % i})
     return out
+
+
+_created = []
+_patched = [False]
+
+
+def _log_action_creation():
+    """Record (uid, name) of every Action object in creation order (action k of the specification = k-th created)."""
+    from nemoguardrails.colang.v2_x.runtime import flows as _flows
+    if not _patched[0]:
+        orig = _flows.Action.__init__
+
+        def init(self, name, arguments, flow_uid=None):
+            orig(self, name, arguments, flow_uid)
+            _created.append((self.uid, name))
+
+        _flows.Action.__init__ = init
+        _patched[0] = True
+    return _created
